@@ -33,7 +33,7 @@ def cases(ctx):
     out = []
     ints = [dt for dt in S.ALL_DT if C.DTYPES[dt][2] in ("int", "uint")]
     # (1) lattices: per-range and common divisors, merged ranges, divisors near 2^49
-    for _ in range(120 if ctx.quick else 1500):
+    for _ in range(400 if ctx.quick else 4000):
         dt = rng.choice(S.ALL_DT)
         out.append(("gcd", S.enc_case(rng, dt=dt, kind="lattice", gcds=1, order=0, level=rng.choice([0, 2, 5, 8, 12]), nchunks=1)))
     for dt in ("u64", "i64", "u128", "i128"):
@@ -45,7 +45,7 @@ def cases(ctx):
             xs = [G.from_signed_val(dt, v) for v in [a, a + w, a + 3 * w, a + w]]
             out.append(("gcd", {"dt": dt, "level": 8, "order": 0, "gcds": 1, "chunks": [xs], "kinds": ["gcd-near-2^%d" % e], "drain": 0}))
     # (2) sparse chunks
-    for _ in range(40 if ctx.quick else 500):
+    for _ in range(120 if ctx.quick else 1200):
         dt = rng.choice(S.ALL_DT)
         P, W, kind, pps = C.DTYPES[dt]
         n = rng.choice([2000, 2001, 2500, 4000] if ctx.quick else [2000, 2001, 3000, 5000, 20000])
@@ -80,7 +80,7 @@ def cases(ctx):
             xs = ys + others[oi:]
         out.append(("sparse", {"dt": dt, "level": rng.choice([8, 9, 10, 12]), "order": 0, "gcds": rng.below(2), "chunks": [xs], "kinds": ["sparse-" + arr], "drain": 0}))
     # (3) vanishing d-th differences
-    for _ in range(60 if ctx.quick else 800):
+    for _ in range(200 if ctx.quick else 2500):
         dt = rng.choice(S.ALL_DT)
         d = rng.range(1, 7)
         n = rng.choice([1, 2, d, d + 1, d + 2, 10, 100, 1000])
